@@ -138,3 +138,9 @@ def x_max_min_star(a: int, items: list):
 def x_sum_filtered(items: list, d: int, k: int):
     # sum of a filtered, mapped generator over a slice (Columns.get_cursor_coords)
     return sum(d + w for w in items[:k] if w > 0)
+
+
+def x_seq_eq(xs: list, ys: list, k: int):
+    # == between two lists / two tuples / a list and a tuple (pyvc interp._seq_equals; Signals.disconnect compares
+    # the stored (weak_args, user_args) tuples with freshly built ones)
+    return (xs == ys, tuple(xs) == tuple(ys), xs == tuple(ys), tuple(xs) == ys, xs[:k] == ys[:k], tuple(xs[:k]) == tuple(ys[:k]))
